@@ -1,6 +1,6 @@
 """C03 — derivatives are tracked by variable name, whatever the internal layout (alignment discipline)."""
 import re
-import cel, hir
+import cel, paths, hir
 from cel import Poly, Rec, Alt, Sym, Tup, Seq, Coll, Arr, Unsupported
 from rules import gather
 from rules.c17 import arms_of, FAST
@@ -347,18 +347,20 @@ def run(ck, facts, tier):
         except Unsupported as e:
             ck.fail(r6, key, "rule could not be established (%s)" % e, where)
             continue
-        want_first = ("if", cel.vkey(cel.cmp_sym("Ne", a.fields["real"], b.fields["real"])))
-        ok = isinstance(res, Alt) and len(res.alts) == 2 and res.alts[0][0] == want_first and cel.vkey(res.alts[0][1]) == cel.vkey(Sym("bool", "false"))
+        # judged on paths, so `if a.real != b.real { false } else { .. }`, the negated test with swapped branches and an early `return false` are one form
+        differ = paths.lit(cel.cmp_sym("Ne", a.fields["real"], b.fields["real"]))
+        ps_ = paths.flatten(cel.strip_early(res))
+        neq = [v for c, v in ps_ if differ in paths.atoms(c)]
+        eqp = [v for c, v in ps_ if (differ[0], not differ[1]) in paths.atoms(c)]
+        ok = bool(neq) and bool(eqp) and len(neq) + len(eqp) == len(ps_) and all(cel.vkey(v) == cel.vkey(Sym("bool", "false")) for v in neq)
         why = "equality does not start by comparing the values: %s" % cel.vfmt(res)[:300]
         if ok:
-            rest = res.alts[1][1]
             want = {("arr_eq", cel._srt([a.fields["dual"].key(), b.fields["dual"].key()]))}
             if num == D2:
                 want.add(("arr_eq", cel._srt([a.fields["dual2"].key(), b.fields["dual2"].key()])))
-            alts = rest.alts if isinstance(rest, Alt) else [((), rest)]
-            for g, v in alts:
+            for v in eqp:
                 ok = ok and conj_set(v) == want
-            why = "after the values, equality is not the conjunction of element-wise array equalities: %s" % cel.vfmt(rest)[:400]
+            why = "after the values, equality is not the conjunction of element-wise array equalities: %s" % cel.vfmt(res)[:400]
         ck.check(r6, key, ok, why, where, sample="a.real == b.real && dual arrays equal (&& dual2 arrays equal) after alignment")
     for r in facts.all_fns():
         if r.get("trait_item") != "std::cmp::PartialEq::eq":
